@@ -70,6 +70,27 @@ func sigIs(f *ssa.Function, params []types.BasicKind, results []types.BasicKind)
 	return true
 }
 
+// calleesWithin: module functions statically reachable from f within depth calls (f excluded).
+func (c *Ctx) calleesWithin(f *ssa.Function, depth int) []*ssa.Function {
+	seen := map[*ssa.Function]bool{f: true}
+	var out []*ssa.Function
+	var walk func(g *ssa.Function, d int)
+	walk = func(g *ssa.Function, d int) {
+		if d > depth {
+			return
+		}
+		for _, cal := range c.staticCallees(g) {
+			if !seen[cal] {
+				seen[cal] = true
+				out = append(out, cal)
+				walk(cal, d+1)
+			}
+		}
+	}
+	walk(f, 1)
+	return out
+}
+
 func (c *Ctx) staticCallees(f *ssa.Function) []*ssa.Function {
 	var out []*ssa.Function
 	seen := map[*ssa.Function]bool{}
@@ -113,13 +134,13 @@ func (c *Ctx) role0(name string) *ssa.Function {
 	}
 	switch name {
 	case "isValidAlias":
-		for _, cal := range c.staticCallees(reg) {
+		for _, cal := range c.calleesWithin(reg, 2) {
 			if isFileMethod(c, cal) && sigIs(cal, []types.BasicKind{types.String}, []types.BasicKind{types.Bool}) && hasMapRangeOrReserved(cal) {
 				return cal
 			}
 		}
 	case "isLocal":
-		for _, cal := range c.staticCallees(reg) {
+		for _, cal := range c.calleesWithin(reg, 2) {
 			if isFileMethod(c, cal) && sigIs(cal, []types.BasicKind{types.String}, []types.BasicKind{types.Bool}) && !hasMapRangeOrReserved(cal) {
 				return cal
 			}
@@ -134,7 +155,7 @@ func (c *Ctx) role0(name string) *ssa.Function {
 			}
 		}
 	case "guessAlias":
-		for _, cal := range c.staticCallees(reg) {
+		for _, cal := range c.calleesWithin(reg, 2) {
 			if cal.Signature.Recv() == nil && sigIs(cal, []types.BasicKind{types.String}, []types.BasicKind{types.String}) {
 				return cal
 			}
